@@ -28,7 +28,7 @@ def honest(path):
     """Paths on which hints are honest: is_guard() true, ignore_errors() false."""
     for t, pol in path.conds:
         txt = norm(t)
-        if txt == "ignore_errors()" and pol:
+        if (txt == "ignore_errors()" or txt.endswith(".ignore_errors()")) and pol:
             return False
     return True
 
@@ -65,6 +65,7 @@ def site_results(fi, call, premises=(), honest_premise=True, guard_value=None):
                 env["guard"] = env["guard.value"] = P.const(guard_value)
             v = Valuer(env)
             v.helpers = {s_.name: s_ for s_ in fi.module.tree.body if isinstance(s_, ast.FunctionDef)}
+            v.split_disjunctions = True
             if guard_value == 0:
                 v.assume(ast.parse("is_guard()", mode="eval").body, False)
             t_g = ast.parse("is_guard()", mode="eval").body
